@@ -143,6 +143,23 @@ def explore_scenario(h, desc, tier, profile=False):
                 signal.signal(signal.SIGALRM, old_handler)
         except (ValueError, AttributeError):
             pass
+    # optional cross-path obligations (e.g. the exact law of a sampler aggregated over all explored paths)
+    n_before_final = len(M.failures)
+    if hasattr(h, "finalize") and not truncated:
+        try:
+            h.finalize(desc, M)
+        except core.HarnessError as e:
+            res["errors"].append(f"finalize: {e}")
+    final_failures = M.failures[n_before_final:]
+    if final_failures:
+        # aggregated obligations have no single model: confirm them through the concrete twin of the scenario
+        Mc, err = run_concrete(h, desc, {})
+        stubs.install()
+        hits = list(Mc.failures)
+        for f in final_failures:
+            f.values = {}
+            f.kind = "aggregate"
+            f._confirmed = hits[0] if hits else None
     res["functions"] = sorted(funcs)
     res["paths"] = len(results)
     res["decisions"] = tot.get("decides", 0)
@@ -172,6 +189,16 @@ def explore_scenario(h, desc, tier, profile=False):
         seen_keys.add(f.key)
         rec = f.to_json()
         vals = f.values
+        if getattr(f, "kind", "") == "aggregate":
+            g = getattr(f, "_confirmed", None)
+            if g is not None:
+                rec["replay"] = "reproduced"
+                rec["reproduced"] = dict(values={}, label=g.label, key=g.key, detail=f"{f.label}: {str(f.detail)[:400]} | concrete twin: {str(g.detail)[:600]}")
+                rec["key"] = f.key
+            else:
+                rec["replay"] = "not-reproduced"
+            res["failures"].append(rec)
+            continue
         if vals is None:
             rec["replay"] = "no-model"
             res["failures"].append(rec)
